@@ -375,7 +375,9 @@ def gen_c05(seed, index):
     rng, g = _gen(seed, index, prof)
     scn = g.build()
     scn["jobs"] = rng.choice([2, 3, 4, -1, 10 ** 6])
-    scn["backend"] = rng.choice([None, "threading", "threading"])
+    scn["backend"] = rng.choice([None, "threading", "threading", "threading", "threading"])
+    if scn["backend"] is None:
+        scn["jobs"] = rng.choice([2, 3])      # process pools: keep the number of workers small
     return scn
 
 
